@@ -164,7 +164,7 @@ W(c) == CASE c = "dna" -> 2 [] c = "iupac" -> 4 [] c = "amino" -> 6 [] c = "text
 \* extra bit patterns accepted by the decoders: <<pattern, canonical code>>
 AltsOf(c) ==
     CASE c = "mdna" -> {<<3, 12>>, <<5, 10>>}
-      [] c = "x3" -> {<<5, 4>>}
+      [] c = "x3" -> {<<5, 4>>, <<6, 4>>}
       [] c = "amino" ->
             {<<CodonBits(x, y, z), AminoCodeOfChar(Genetic(x, y, z))>> : x \in Bases, y \in Bases, z \in Bases}
       [] OTHER -> {}
